@@ -1,17 +1,22 @@
-"""C03 fragments: ring cursor, size, capacity, sample index bounds / maps, done mask (buffers.py)."""
+"""C03 fragments: ring cursor, size, capacity, sample index bounds / maps, done mask (buffers.py).
+start/end patterns anchor on stable text only (assigned name, keyword + first identifier), never on the
+operator or constant the fragment captures."""
 FILE = "stable_baselines3/common/buffers.py"
 
 _CUR = dict(
-    start=r"^self\.pos \+= 1", end=r"^if self\.pos == ",
+    start=r"^self\.pos \+= ", end=r"^if (not )?\(?self\.pos\b",
     inputs=[("pos", "Z"), ("buffer_size", "Z"), ("full", "bool")],
     subst={"self.pos": "pos", "self.buffer_size": "buffer_size", "self.full": "full"},
     outputs=[("pos", "Z"), ("full", "bool")],
 )
-_CAP = dict(start=r"^self\.buffer_size = max", end=None, kind="expr", ret="Z",
+_CAP = dict(start=r"^self\.buffer_size = ", end=None, kind="expr", ret="Z",
             inputs=[("buffer_size", "Z"), ("n_envs", "Z")])
-_MASK_PICK = r"self\.dones\[[^\]]*\] \* .*self\.timeouts\[[^\]]*\]\)?"
+# the arithmetic combination of dones[...] and timeouts[...] (whatever the operators), without the
+# surrounding reshape / to_torch / normalize calls
+_MASK_PICK = r"(?!.*(reshape|normalize|to_torch)).*self\.(dones|timeouts)\[.*self\.(dones|timeouts)\[.*"
 _MASK = dict(kind="subexpr", pick=_MASK_PICK, ret="Z", inputs=[("d", "Z"), ("t", "Z")],
              subst={"self.dones[batch_inds, env_indices]": "d", "self.timeouts[batch_inds, env_indices]": "t"})
+_SELF = {"self.full": "full", "self.buffer_size": "buffer_size", "self.pos": "pos"}
 
 SPECS = [
     # add(): advance the write cursor, wrap and set `full`
@@ -19,43 +24,40 @@ SPECS = [
     dict(name="dictrb_add_cursor", qual="DictReplayBuffer.add", **_CUR),
     # size()
     dict(name="rb_size", qual="BaseBuffer.size", start=None, end=None, ret="Z",
-         inputs=[("full", "bool"), ("buffer_size", "Z"), ("pos", "Z")],
-         subst={"self.full": "full", "self.buffer_size": "buffer_size", "self.pos": "pos"}),
+         inputs=[("full", "bool"), ("buffer_size", "Z"), ("pos", "Z")], subst=_SELF),
     # capacity = max(buffer_size // n_envs, 1)
     dict(name="rb_capacity", qual="ReplayBuffer.__init__", **_CAP),
     dict(name="dictrb_capacity", qual="DictReplayBuffer.__init__", **_CAP),
     # BaseBuffer.sample(): indices are drawn from [0, upper_bound) and used as they are
     dict(name="rb_upper_bound", qual="BaseBuffer.sample", start=r"^upper_bound = ", end=None, kind="expr", ret="Z",
-         inputs=[("full", "bool"), ("buffer_size", "Z"), ("pos", "Z")],
-         subst={"self.full": "full", "self.buffer_size": "buffer_size", "self.pos": "pos"}),
+         inputs=[("full", "bool"), ("buffer_size", "Z"), ("pos", "Z")], subst=_SELF),
     dict(name="rb_base_index", qual="BaseBuffer.sample", start=r"^batch_inds = ", end=None, kind="expr", ret="Z",
          inputs=[("draw", "Z")], subst={"np.random.randint(0, upper_bound, size=batch_size)": "draw"}),
-    # ReplayBuffer.sample(): which branch, and the index map of each branch
-    dict(name="rb_sample_not_memopt", qual="ReplayBuffer.sample", start=r"^if not self\.optimize_memory_usage", end=None, kind="test",
+    # ReplayBuffer.sample(): which branch, and the index map of the two memory-optimised branches
+    # (draw_full / draw_notfull stand for randint(1, buffer_size) / randint(0, pos): the texts are pinned by subst)
+    dict(name="rb_sample_not_memopt", qual="ReplayBuffer.sample", start=r"^if (not )?self\.optimize_memory_usage", end=None, kind="test",
          inputs=[("memopt", "bool")], subst={"self.optimize_memory_usage": "memopt"}),
-    dict(name="rb_sample_full_branch", qual="ReplayBuffer.sample", start=r"^if self\.full", end=None, kind="test",
-         inputs=[("full", "bool")], subst={"self.full": "full"}),
-    dict(name="rb_memopt_full_index", qual="ReplayBuffer.sample", start=r"^batch_inds = \(", end=None, kind="expr", ret="Z",
-         inputs=[("draw", "Z"), ("pos", "Z"), ("buffer_size", "Z")],
-         subst={"np.random.randint(1, self.buffer_size, size=batch_size)": "draw", "self.pos": "pos", "self.buffer_size": "buffer_size"}),
-    dict(name="rb_memopt_notfull_index", qual="ReplayBuffer.sample", start=r"^batch_inds = np", end=None, kind="expr", ret="Z",
-         inputs=[("draw", "Z")], subst={"np.random.randint(0, self.pos, size=batch_size)": "draw"}),
+    dict(name="rb_memopt_index", qual="ReplayBuffer.sample", start=r"^if (not )?self\.full", end=None,
+         inputs=[("full", "bool"), ("draw_full", "Z"), ("draw_notfull", "Z"), ("pos", "Z"), ("buffer_size", "Z")],
+         subst={"np.random.randint(1, self.buffer_size, size=batch_size)": "draw_full",
+                "np.random.randint(0, self.pos, size=batch_size)": "draw_notfull", **_SELF},
+         outputs=[("batch_inds", "Z")]),
     # _get_samples(): slot of the next observation in the memory-optimised variant; done mask
-    dict(name="rb_memopt_next_index", qual="ReplayBuffer._get_samples", start=r"^next_obs = .*% self\.buffer_size", end=None,
-         kind="subexpr", pick=r".*% self\.buffer_size", ret="Z",
+    dict(name="rb_memopt_next_index", qual="ReplayBuffer._get_samples", start=r"^next_obs = self\._normalize_obs\(self\.observations\[", end=None,
+         kind="subexpr", pick=r"[^\[\],]*batch_inds[^\[\],]*", ret="Z",
          inputs=[("batch_inds", "Z"), ("buffer_size", "Z")], subst={"self.buffer_size": "buffer_size"}),
-    dict(name="rb_memopt_next_branch", qual="ReplayBuffer._get_samples", start=r"^if self\.optimize_memory_usage", end=None, kind="test",
+    dict(name="rb_memopt_next_branch", qual="ReplayBuffer._get_samples", start=r"^if (not )?self\.optimize_memory_usage", end=None, kind="test",
          inputs=[("memopt", "bool")], subst={"self.optimize_memory_usage": "memopt"}),
     dict(name="rb_done_mask", qual="ReplayBuffer._get_samples", start=r"^data = ", end=None, **_MASK),
     dict(name="dictrb_done_mask", qual="DictReplayBuffer._get_samples", start=r"^return DictReplayBufferSamples", end=None, **_MASK),
     # add(): where the memory-optimised variant writes next_obs; when timeouts are recorded
-    dict(name="rb_memopt_write_index", qual="ReplayBuffer.add", start=r"^self\.observations\[.*% self\.buffer_size\] = ", end=None,
-         kind="subexpr", pick=r".*% self\.buffer_size", ret="Z",
+    dict(name="rb_memopt_write_index", qual="ReplayBuffer.add", start=r"^self\.observations\[.*\] = np\.array\(next_obs\)", end=None,
+         kind="subexpr", pick=r"[^\[\],]*self\.pos[^\[\],]*", ret="Z",
          inputs=[("pos", "Z"), ("buffer_size", "Z")], subst={"self.pos": "pos", "self.buffer_size": "buffer_size"}),
-    dict(name="rb_add_memopt_branch", qual="ReplayBuffer.add", start=r"^if self\.optimize_memory_usage", end=None, kind="test",
+    dict(name="rb_add_memopt_branch", qual="ReplayBuffer.add", start=r"^if (not )?self\.optimize_memory_usage", end=None, kind="test",
          inputs=[("memopt", "bool")], subst={"self.optimize_memory_usage": "memopt"}),
-    dict(name="rb_add_timeout_branch", qual="ReplayBuffer.add", start=r"^if self\.handle_timeout_termination", end=None, kind="test",
+    dict(name="rb_add_timeout_branch", qual="ReplayBuffer.add", start=r"^if (not )?self\.handle_timeout_termination", end=None, kind="test",
          inputs=[("hto", "bool")], subst={"self.handle_timeout_termination": "hto"}),
-    dict(name="dictrb_add_timeout_branch", qual="DictReplayBuffer.add", start=r"^if self\.handle_timeout_termination", end=None, kind="test",
+    dict(name="dictrb_add_timeout_branch", qual="DictReplayBuffer.add", start=r"^if (not )?self\.handle_timeout_termination", end=None, kind="test",
          inputs=[("hto", "bool")], subst={"self.handle_timeout_termination": "hto"}),
 ]
